@@ -160,6 +160,7 @@ type Exec struct {
 	monAcq     map[string]*State // monitor fields: the state right after the lock was taken
 	loopFrames map[int]map[string]loopFrame
 	aliasOf  map[string][]aliasEdge // ownership tracking: a phi's array is one of its incoming arrays
+	loopTop  string // allocation mark at the most recently cut loop head
 	curBlock *ssa.BasicBlock
 	curInstr ssa.Instruction // top frame: the instruction being executed (for naming locals at sites)
 	prov     map[string]string // reference term -> "fresh" | "owned"
